@@ -145,8 +145,14 @@ func loadKnown() ([]*findings.Finding, map[string]string, error) {
 	return fs, findings.KnownMap(fs), nil
 }
 
+// suiteFuncs: suites that are not plain behaviour enumerations.
+var suiteFuncs = map[string]func(tier string, known map[string]string) (*engine.SuiteResult, error){}
+
 // suiteResult returns the (cached) result of a suite for the current repository content.
 func suiteResult(name, tier string, known map[string]string) (*engine.SuiteResult, error) {
+	if f, ok := suiteFuncs[name]; ok {
+		return f(tier, known)
+	}
 	def, ok := suites[name]
 	if !ok {
 		return nil, fmt.Errorf("unknown suite %s", name)
